@@ -420,7 +420,8 @@ func main() {
 	only := flag.String("model", "", "restrict to one model")
 	replay := flag.String("replay", "", "replay one finding (JSON file with model/device/netspoc/raw): exit 0 if it panics")
 	determinism := flag.Int("determinism", 0, "C16: plan every test case N times and compare script, warnings and status")
-	extra := flag.String("extra", "", "C16: directory with extra MODEL_name.device / .netspoc pairs")
+	corpus := flag.String("corpus", "", "C20: directory with stored reproducers (JSON: model, device, netspoc, raw) replayed on every run")
+	extra := flag.String("extra", "", "C16: directory with extra MODEL_name.device / .netspoc pairs (optional .raw)")
 	flag.Parse()
 	if *determinism > 0 {
 		tmp, _ := os.MkdirTemp("", "fuzzdet")
@@ -433,8 +434,9 @@ func main() {
 				base := strings.TrimSuffix(d, ".device")
 				dv, _ := os.ReadFile(d)
 				sp, _ := os.ReadFile(base + ".netspoc")
+				rw, _ := os.ReadFile(base + ".raw") // optional raw file
 				model := map[string]string{"asa": "ASA", "ios": "IOS", "linux": "Linux", "nsx": "NSX", "panos": "PAN-OS"}[strings.SplitN(filepath.Base(base), "_", 2)[0]]
-				cases = append(cases, testCase{model: model, dev: string(dv), spoc: string(sp)})
+				cases = append(cases, testCase{model: model, dev: string(dv), spoc: string(sp), raw: string(rw)})
 			}
 		}
 		type nd struct {
@@ -495,6 +497,7 @@ func main() {
 	found := map[string]*finding{}
 	runs := 0
 	ncases := 0
+	corpusRuns := 0
 	record := func(site, msg string, c testCase, dev, spoc, raw string) {
 		if site == "" {
 			return
@@ -508,6 +511,33 @@ func main() {
 			return
 		}
 		found[site] = &finding{Site: site, Panic: msg, Model: c.model, Device: dev, Spoc: spoc, Raw: raw, Count: 1}
+	}
+	// regression corpus: the stored reproducers of repaired defects (and of
+	// known findings) are members of the property's input family that the
+	// mutation of the first lines does not reach: replay each of them
+	if *corpus != "" {
+		files, _ := filepath.Glob(filepath.Join(*corpus, "*.json"))
+		sort.Strings(files)
+		for _, f := range files {
+			data, err := os.ReadFile(f)
+			if err != nil {
+				continue
+			}
+			var in struct {
+				Model   string `json:"model"`
+				Device  string `json:"device"`
+				Netspoc string `json:"netspoc"`
+				Raw     string `json:"raw"`
+			}
+			if json.Unmarshal(data, &in) != nil || in.Model == "" {
+				continue
+			}
+			c := testCase{model: in.Model, dev: in.Device, spoc: in.Netspoc, raw: in.Raw}
+			site, m := run(c.model, c.dev, c.spoc, c.raw)
+			runs++
+			corpusRuns++
+			record(site, m, c, c.dev, c.spoc, c.raw)
+		}
 	}
 	for _, c := range cases {
 		if *only != "" && c.model != *only {
@@ -581,7 +611,7 @@ func main() {
 		list = append(list, f)
 	}
 	sort.Slice(list, func(i, j int) bool { return list[i].Site < list[j].Site })
-	res := map[string]any{"cases": ncases, "runs": runs, "panic_sites": len(list), "findings": list}
+	res := map[string]any{"cases": ncases, "runs": runs, "corpus_runs": corpusRuns, "panic_sites": len(list), "findings": list}
 	data, _ := json.MarshalIndent(res, "", " ")
 	if *out != "" {
 		os.WriteFile(*out, data, 0644)
